@@ -25,9 +25,17 @@ Trees == CASE Family = "pairs" -> PairTrees \cup MixedTrees \cup StmtTrees
            [] Family = "triples" -> TripleTrees
            [] OTHER -> PairTrees
 
-Init == t \in Trees
+(* the op-assignment spelling: `a op= e` denotes a = a op (e), with e extending as far as possible *)
+OpAssignForms ==
+  {[tree |-> Assign(A, Infix(o, A, e)), toks |-> <<"#id", "a", o, "=">> \o UnE(e, 0) \o <<";">>] :
+     o \in BinOpSet,
+     e \in {B, Infix("+", B, C), Infix("*", B, C), Infix("-", B, C), Infix("<", B, C), Infix("==", B, C),
+            Infix("||", B, C), Prefix("-", B), Infix("+", Infix("*", B, C), D), Call1(B, C)}}
+
+Init == \/ (Family # "opassign" /\ t \in Trees)
+        \/ (Family = "opassign" /\ t \in OpAssignForms)
 Next == UNCHANGED t
 
-Prog == <<[k |-> "Expr", e |-> t]>>
-PrintVec == PrintT(<<"VEC", ToJson([tree |-> Prog, toks |-> Unparse(Prog)])>>)
+Prog == <<[k |-> "Expr", e |-> IF Family = "opassign" THEN t.tree ELSE t]>>
+PrintVec == PrintT(<<"VEC", ToJson([tree |-> Prog, toks |-> IF Family = "opassign" THEN t.toks ELSE Unparse(Prog)])>>)
 =============================================================================
